@@ -10,6 +10,24 @@ import (
 
 // ---- stubs ------------------------------------------------------------------------------------
 
+// gDone: a context that is already done (the filter's duties do not depend on the caller's context)
+type gDone struct{ ch chan struct{} }
+
+func (c *gDone) Deadline() (time.Time, bool) { return time.Time{}, false }
+func (c *gDone) Done() <-chan struct{}        { return c.ch }
+func (c *gDone) Err() error                   { return context.Canceled }
+func (c *gDone) Value(key any) any            { return nil }
+
+// gCtx: a live context or one that is already done — the solver's choice
+func gCtx() context.Context {
+	if nondetBool() {
+		c := &gDone{ch: make(chan struct{})}
+		close(c.ch)
+		return c
+	}
+	return context.Background()
+}
+
 type gErr struct{ tag string }
 
 func (e *gErr) Error() string { return e.tag }
@@ -256,7 +274,7 @@ func H_C11_Process_gateable() {
 			hit = i
 		}
 	}
-	out, err := s.w.Process(context.Background(), ev)
+	out, err := s.w.Process(gCtx(), ev)
 	// --- nothing is ever composed twice, and every compose call gets exactly one group's events in arrival order
 	for i := 0; i < s.n; i++ {
 		verifAssert(s.composedCount(s.grp[i].events) <= 1, "C11.process.group-composed-at-most-once")
@@ -392,9 +410,9 @@ func H_C17_FlushAll() {
 	}
 	var err error
 	if nondetBool() {
-		err = s.w.FlushAll(context.Background())
+		err = s.w.FlushAll(gCtx())
 	} else {
-		err = s.w.Close(context.Background())
+		err = s.w.Close(gCtx())
 	}
 	for i := 0; i < s.n; i++ {
 		verifAssert(s.composedCount(s.grp[i].events) <= 1, "C11.flushall.group-composed-at-most-once")
